@@ -54,6 +54,23 @@ var c18Inits = map[string]string{
 	"two":   `{"top":"a","c":{"a":"a","b":7,"d":{"x":"a","y":5}},"l":[{"k":"a","v":1,"w":"dw"},{"k":"b","v":2,"w":"dw","m":{"z":"a","zd":9},"n":[{"j":1,"u":"a"},{"j":2,"u":"b"}]}]}`,
 	"three": `{"l":[{"k":"a","v":1,"w":"dw"},{"k":"b","v":2,"w":"dw"},{"k":"c","v":1,"w":"b"}]}`,
 	"onlyb": `{"l":[{"k":"b","v":2,"w":"dw"}]}`,
+	// schema keys: entries that share their first or their last key component
+	"pairs": `{"p":[{"a":"x","b":1,"v":"x1"},{"a":"y","b":1,"v":"y1"},{"a":"x","b":2,"v":"x2"},{"a":"y","b":2,"v":"y2"}]}`,
+}
+
+// operations on the list with a compound key (schema keys)
+var c18KeysAlphabet = []c18Op{
+	{"upsert", "", `{"p":[{"a":"z","b":1,"v":"n"}]}`},
+	{"upsert", "", `{"p":[{"a":"y","b":1,"v":"u"}]}`},
+	{"upsert", "p=y,2", `{"v":"w"}`},
+	{"insert", "", `{"p":[{"a":"y","b":3,"v":"i"}]}`},
+	{"delete", "p=x,1", ""},
+	{"delete", "p=y,1", ""},
+	{"delete", "p=x,2", ""},
+	{"delete", "p=y,2", ""},
+	{"delete", "p=z,1", ""},
+	{"replace", "p=y,1", `{"p":[{"a":"y","b":1,"v":"r"}]}`},
+	{"replace", "p=x,2", `{"p":[{"a":"x","b":2,"v":"r"}]}`},
 }
 
 var c18Alphabet = []c18Op{
@@ -128,6 +145,10 @@ func (p *c18) Cases(tier string, emit func(interface{})) {
 		if strings.Contains(st, "slice") {
 			// hidden state (backing arrays): full history tree without deduplication
 			emit(c18Case{Part: "bfs", Schema: "base", Store: st, Init: "three", Depth: d - 1, NoDedup: true})
+		}
+		if !strings.HasSuffix(st, "map") {
+			// compound keys (map-backed stores are keyed by the first key leaf only, section 10)
+			emit(c18Case{Part: "bfs", Schema: "keys", Store: st, Init: "pairs", Depth: d})
 		}
 		// hidden state (whatever the list node caches): full history tree
 		emit(c18Case{Part: "bfs", Schema: "base", Store: st, Init: "three", Depth: d - 1, NoDedup: true, Held: true})
@@ -449,6 +470,9 @@ func c18FindAll(c c18Case, inst *c18Inst, site, desc string) []eng.StepViol {
 	env := inst.env
 	m := env.m
 	paths := []string{"l=a", "l=b", "l=c", "c", "c/d", "l=b/n=1", "l=b/n=2", "l=b/m", "l=a/n=1"}
+	if c.Schema == "keys" {
+		paths = []string{"p=x,1", "p=y,1", "p=x,2", "p=y,2", "p=z,1", "p=y,3", "p=z,2"}
+	}
 	for _, p := range paths {
 		ep := entryPoint{p}
 		wt, _ := ep.locate(m, inst.model)
@@ -514,6 +538,9 @@ func (p *c18) Run(raw json.RawMessage) eng.Result {
 		Ops: func(inst *c18Inst) []c18Op {
 			var en []c18Op
 			alpha := c18Alphabet
+			if c.Schema == "keys" {
+				alpha = c18KeysAlphabet
+			}
 			if c.Held {
 				alpha = c18HeldAlphabet
 			}
